@@ -1007,7 +1007,9 @@ def run(out, drv, info):
                 'the slow-transfer strategy in virtual time (finite waits of replicat code expire while a transfer is held), ticks are a choice of every other strategy too. non-trivial = the controller had ≥ 2 (snapshot) / ≥ 4 (restore, ≥ 2 loaders) decision points with more than one enabled agent; '
                 'distinct = hash of (case summary, realised order of queue gets / completions / lock acquisitions)')
     out.assumptions = ['pre-emption only at the instrumented points (backend transfers, Lock acquire / after release, _write_file_part, producer put); CPython byte-code level '
-                       'interleavings, the GIL and event-loop internals are not explored (claim is PARTIAL)',
+                       'interleavings, the GIL and event-loop internals are not explored (claim is PARTIAL) — except the slot queue: its own micro-steps are modelled (SlotQ) and ONE '
+                       'byte-code level pre-emption is forced on the real restore: the loop thread is held between a slot request\'s emptiness test and its registration '
+                       '(impl/c09_affinity.py; bounded window, child process, hang = no return within 5 s)',
                        'liveness = no deadlock + bounded number of progress steps in the model; the harness reports a hang after a time-out',
                        'asyncio / ThreadPoolExecutor / queue.Queue / threading.Lock behave as documented',
                        'sequential reference = the same operation with concurrency 1 and calls completing in issue order',
